@@ -106,6 +106,10 @@ type CreateCase struct {
 	// Then: a second file created after the first one was closed (whatever its fate), with room on
 	// every root again: it must store exactly its own writes
 	Then []int `json:"then,omitempty"`
+	// MidSet > 0: before the MidSet-th Write (1-based; len(Writes)+1 = before Close) the writer
+	// stores another key with a plain Set, which must return and be readable: an open file must not
+	// stand in the way of other writes
+	MidSet int `json:"mid_set,omitempty"`
 }
 
 var (
